@@ -23,7 +23,7 @@ RULE = ("Pairs (A, B) from a pool: same configuration; differing only in RELATIV
         "and date order (DMY/MDY/YMD and 'tl', which has no order of its own) with ambiguous numeric dates and equal settings dicts; "
         "differing in SKIP_TOKENS / NORMALIZE for the same language; parse vs search_dates; explicit DATE_ORDER vs locale order. "
         "Schedules: A is preempted at its k-th executed library line, B runs to completion, A resumes; k = the first occurrence of "
-        "every distinct (file, line) A executes (enumerated) plus Hypothesis-drawn k; both directions; start state warm (both calls "
+        "every distinct (file, line, calling context of depth 3) A executes (enumerated) plus Hypothesis-drawn k; both directions; start state warm (both calls "
         "made once before) or cold (forked from a process that only imported the library). Points where library code is called back "
         "from foreign code holding a lock (a non-library frame between two library frames, or B not finishing while A is parked) are "
         "infeasible for 'B runs to completion' and are counted separately. Oracle: A's and B's results equal their results when run "
@@ -31,7 +31,7 @@ RULE = ("Pairs (A, B) from a pool: same configuration; differing only in RELATIV
         "that already read or wrote shared state); distinct on (pair, file, line).")
 ASSUMPTIONS = ["one preemption per schedule, B to completion (the property's schedule class); schedules with two or more preemptions are not explored",
                "frozen clock", "results alone are taken in a forked child from the same start state; pairs whose sequential orders disagree are C03's subject and skipped"]
-ESSENTIAL = ["pair:same-config", "pair:differ-base-or-prefs", "pair:differ-language-order", "pair:differ-skip-normalize", "pair:parse-vs-search",
+ESSENTIAL = ["pair:formats-vs-plain", "pair:same-config", "pair:differ-base-or-prefs", "pair:differ-language-order", "pair:differ-skip-normalize", "pair:parse-vs-search",
              "start:warm", "start:cold", "preempted-in-library", "direction:AB", "direction:BA"]
 
 NOW = dt.datetime(2015, 6, 15, 10, 30)
@@ -61,6 +61,11 @@ PAIRS = [
      ["search", "It was launched on 4 October 1957. We remembered it 2 days ago, yesterday.", ["en"], None, False]),
     ("parse-vs-search", ["search", "Le 12 janvier 2020. Puis hier.", ["fr"], {"DATE_ORDER": "DMY"}, False],
      ["parse", "hier", None, ["fr"], None, None, {"DATE_ORDER": "DMY"}]),
+    # a call with custom date_formats (translation that keeps the formatting) against an ordinary call in the same language
+    ("formats-vs-plain", ["parse", "03, février 01", ["%y, %B %d"], ["fr"], None, None, None], ["parse", "12 mars 2015", None, ["fr"], None, None, None]),
+    ("formats-vs-plain", ["parse", "Dienstag; 3. März 2015", ["%A; %d. %B %Y"], ["de"], None, None, None], ["parse", "3 März 2015 14:05", None, ["de"], None, None, None]),
+    ("formats-vs-plain", ["parse", "2015|enero|12", ["%Y|%B|%d"], ["es"], None, None, {"PREFER_DATES_FROM": "past"}],
+     ["parse", "12 enero 2015", None, ["es"], None, None, {"PREFER_DATES_FROM": "past"}]),
 ]
 
 
@@ -95,7 +100,13 @@ def _trace_events(stepA, warm):
 
         def local(frame, event, arg):
             if event == "line":
-                ev.append((frame.f_code.co_filename[len(PKG):], frame.f_lineno, frame.f_code.co_name))
+                # calling context (the three enclosing function names): the same line reached through another path (split()
+                # under is_applicable vs. under translate(keep_formatting=True)) is a different preemption point
+                b1 = frame.f_back
+                b2 = b1.f_back if b1 else None
+                b3 = b2.f_back if b2 else None
+                ctxt = tuple(f.f_code.co_name for f in (b1, b2, b3) if f is not None)
+                ev.append((frame.f_code.co_filename[len(PKG):], frame.f_lineno, frame.f_code.co_name, ctxt))
             return local
 
         def tracer(frame, event, arg):
@@ -369,7 +380,7 @@ def _distinct_lines(ctx):
             ev = events_of(A, Bx, warm)
             first = {}
             for idx, e in enumerate(ev):
-                first.setdefault((e[0], e[1]), idx)
+                first.setdefault((e[0], e[1], e[3] if len(e) > 3 else ()), idx)
             ks = sorted(first.values())
             if not warm:
                 ks = ks[::max(1, len(ks) // 12)] if ctx.quick else ks[::3]
